@@ -11,7 +11,9 @@ replacement, in the property's own words, independently of the model.
 
 extra_checks: real DYNAMOSA / MOSA / MIO runs on tiny modules in child interpreters, observed after
 every iteration by a `SearchObserver` (goal sets only grow, partition, every archived test re-executed
-covers its goal, every single replacement obeys the rule, MIO capacity / exactly-one / stays-covered).
+covers its goal, every single replacement obeys the rule, MIO capacity / exactly-one / stays-covered),
+plus DYNAMOSA runs with local search on every statement: each archived test is snapshotted when it enters
+`_covered` and compared / re-executed right after every suite local search and after every iteration.
 """
 from __future__ import annotations
 
@@ -85,6 +87,34 @@ class Counter:
         return 0
 '''
 
+# Integer comparisons against far-away constants: random generation does not reach the inner branches, the AVM
+# local search on an (archived) test's integer statement does — the runs with local search on every statement
+# make local search SUCCEED on archived tests.
+CMPMOD = '''
+def classify(a: int, b: int) -> int:
+    if a > 150000:
+        if b == a + 7:
+            return 1
+        return 2
+    if a < -90000:
+        if b == a - 7:
+            return 3
+        return 4
+    if b == 123456:
+        return 5
+    return 0
+
+
+def band(x: int) -> int:
+    if x > 4000:
+        if x < 4010:
+            return 1
+        return 2
+    if x == -77:
+        return 3
+    return 0
+'''
+
 # The child interpreter: runs the real pipeline with a search observer + per-event recorders.
 CHILD = r'''
 import json, os, sys
@@ -96,7 +126,8 @@ import pynguin.ga.searchobserver as so
 import pynguin.ga.testcasechromosome as tcc
 
 REPORT = {"iterations": 0, "violations": [], "events": 0, "replacements": 0, "reexec": 0,
-          "covered_final": 0, "err_archived": 0, "kind": None, "mio_adds": 0, "gm_checks": 0}
+          "covered_final": 0, "err_archived": 0, "kind": None, "mio_adds": 0, "gm_checks": 0,
+          "ls_calls": 0, "ls_changed_tests": 0, "snapshot_checks": 0}
 
 def viol(cls, what):
     if len(REPORT["violations"]) < 20:
@@ -123,6 +154,31 @@ class RecDict(dict):
                 viol("replacement-rule", f"{goal}: old(size={old.size()},err={erroneous(old)}) "
                      f"replaced by new(size={new.size()},err={erroneous(new)},clean={clean(new)})")
         super().__setitem__(goal, new)
+        # snapshot at the moment the solution enters the archive: the object, its code, that it covers the goal
+        SNAP[id(goal)] = (goal, new, code_of(new))
+
+SNAP = {}
+
+def code_of(chromosome):
+    return chromosome.test_case.to_module().code  # rendered from the statements, not from the code cache
+
+def check_snapshots(a, where):
+    """Archive contents only change through update/add events: between two `_covered[goal] = ...` events the
+    archived object is the same and its code is the code it was archived with."""
+    for goal, sol in a._covered.items():
+        snap = SNAP.get(id(goal))
+        REPORT["snapshot_checks"] += 1
+        if snap is None or snap[1] is not sol:
+            viol("archived-changed-without-update", f"{where}: {goal}: the archived solution is not the one "
+                 "recorded by the last `_covered[goal] = solution`")
+            continue
+        now = code_of(sol)
+        if now != snap[2]:
+            viol("archived-mutated", f"{where}: the test archived for {goal} was altered in place: "
+                 f"archived as {snap[2]!r}, now {now!r}")
+    for key, (goal, _, _) in SNAP.items():
+        if goal not in a._covered:
+            viol("covered-shrinks", f"{where}: {goal} was archived and is not covered any more")
 
 def reexec_covers(goal, chromosome):
     fresh = tcc.TestCaseChromosome(test_case=chromosome.test_case.clone())
@@ -165,6 +221,8 @@ class Monitor(so.SearchObserver):
         cs = set(ids(cov))
         if ids(unc) != [id(g) for g in obj if id(g) not in cs]:
             viol("partition", "uncovered is not objectives minus covered, in objective order")
+        if isinstance(a._covered, RecDict):
+            check_snapshots(a, "after iteration %d" % REPORT["iterations"])
         for goal, sol in a._covered.items():
             if not sol.get_is_covered(goal):
                 viol("archived-not-covering", f"{goal}: cached is_covered is False")
@@ -226,6 +284,28 @@ def add_solution(self, h, chromosome):
     return r
 arch.MIOPopulation.add_solution = add_solution
 
+import pynguin.testcase.localsearch as lsm
+ALGO = []
+orig_ls = lsm.TestSuiteLocalSearch.local_search
+def suite_local_search(self, suite, *args, **kwargs):
+    """Observe the archive right after the suite local search, before the goals manager sees its results."""
+    REPORT["ls_calls"] += 1
+    before = [code_of(c) for c in suite.test_case_chromosomes]
+    try:
+        return orig_ls(self, suite, *args, **kwargs)
+    finally:
+        after = [code_of(c) for c in suite.test_case_chromosomes]
+        REPORT["ls_changed_tests"] += sum(1 for x, y in zip(before, after) if x != y) + abs(len(after) - len(before))
+        for algo in ALGO:
+            a = algo._archive
+            if isinstance(a, arch.CoverageArchive) and isinstance(a._covered, RecDict):
+                check_snapshots(a, "after local search %d" % REPORT["ls_calls"])
+                for goal, sol in a._covered.items():
+                    if not reexec_covers(goal, sol):
+                        viol("archived-not-covering-reexec", f"after local search {REPORT['ls_calls']}: {goal}: "
+                             f"re-executed archived test does not cover it: {code_of(sol)!r}")
+lsm.TestSuiteLocalSearch.local_search = suite_local_search
+
 orig_inst = gen._instantiate_test_generation_strategy
 def inst(executor, cluster, provider):
     algo = orig_inst(executor, cluster, provider)
@@ -233,6 +313,7 @@ def inst(executor, cluster, provider):
     if isinstance(a, arch.CoverageArchive):
         a._covered = RecDict(a._covered)
     algo.add_search_observer(Monitor(algo))
+    ALGO.append(algo)
     return algo
 gen._instantiate_test_generation_strategy = inst
 
@@ -242,6 +323,20 @@ try:
     rc = cli.main(sys.argv)
 except SystemExit as e:
     rc = e.code
+except AssertionError as e:  # CoverageArchive.solutions checks itself ("Some covered targets have a fitness != 0.0")
+    import traceback
+    tb = traceback.extract_tb(e.__traceback__)
+    where = f"{os.path.basename(tb[-1].filename)}:{tb[-1].name}" if tb else "?"
+    if tb and tb[-1].filename.endswith("archive.py"):
+        viol("solutions-asserts", f"the search aborted with AssertionError in {where}: {e}")
+    else:
+        REPORT["crash"] = f"AssertionError in {where}: {e}"
+    for algo in ALGO:
+        if isinstance(algo._archive, arch.CoverageArchive):
+            for goal, sol in algo._archive._covered.items():
+                if not reexec_covers(goal, sol):
+                    viol("archived-not-covering-reexec", f"when the search aborted: {goal}: re-executed archived "
+                         f"test does not cover it: {code_of(sol)!r}")
 REPORT["rc"] = int(rc) if rc is not None else None
 with open(os.environ["C13_REPORT"], "w") as f:
     json.dump(REPORT, f)
@@ -258,6 +353,8 @@ class C13(PropertyCheck):
     n_search = 20000
     runs_quick = 6
     runs_thorough = 60
+    ls_runs_quick = 3
+    ls_runs_thorough = 12
     rule = ("random histories: CoverageArchive (update/add_goals/solutions, <=8 cmds, goals 0..9, pools of <=8 "
             "solutions with sizes 0..6 so that ties occur, results none/clean/timeout/exception), _GoalsManager.update "
             "on random structural graphs (cycles allowed), MIOPopulation (add/shrink/sample, h in {0, 5e-324, .25, .5, "
@@ -265,8 +362,9 @@ class C13(PropertyCheck):
             "stored solution was replaced or a replacement was refused (coverage: >=1 log event with an old solution "
             "or a covering candidate rejected; MIO: add_solution on a covered or full population)")
     assumptions = [
-        "chromosomes are not mutated after being archived (the model's solutions are immutable values); the real "
-        "runs of extra_checks re-execute every archived test to observe the real objects",
+        "value level: the model's solutions are immutable values; the reference level (Model/ArchiveHeap.lean) proves "
+        "that no alias-free loop operation alters an archived object; on the real objects this is observed by the real "
+        "runs of extra_checks (snapshot at archiving time compared after every local search / iteration, re-execution)",
         "MIO h values are compared through the order-preserving bit pattern of non-negative doubles",
         "reset() is not part of a search history",
         "re-execution of archived tests in the real runs is deterministic on the tiny modules used",
@@ -832,7 +930,13 @@ class C13(PropertyCheck):
         return None
 
     # -- real search runs ----------------------------------------------------------------------
-    def _one_run(self, tmp, idx, algorithm, module, seed, iterations):
+    # local search applied to every statement of every archived test, budget in iterations only (the per-call
+    # wall-clock limit of LocalSearchTimer is moved out of reach), small population so that goals stay open
+    LS_ARGS = ["--local_search", "True", "--local_search_probability", "1.0", "--local_search_time", "100000000",
+               "--population", "6", "--min_initial_tests", "1", "--max_initial_tests", "2",
+               "--none_weight", "0", "--any_weight", "0", "--use_random_object_for_call", "0.0"]
+
+    def _one_run(self, tmp, idx, algorithm, module, seed, iterations, extra=()):
         out = os.path.join(tmp, f"out{idx}")
         os.makedirs(out, exist_ok=True)
         report = os.path.join(tmp, f"report{idx}.json")
@@ -841,14 +945,16 @@ class C13(PropertyCheck):
         cmd = [vcommon.PY, os.path.join(tmp, "child.py"), "--project-path", os.path.join(tmp, "proj"),
                "--module-name", module, "--output-path", out, "--algorithm", algorithm,
                "--maximum-iterations", str(iterations), "--seed", str(seed),
-               "--use-master-worker", "False", "--assertion-generation", "NONE"]
+               "--use-master-worker", "False", "--assertion-generation", "NONE", *extra]
         r = subprocess.run(cmd, env=env, capture_output=True, text=True, timeout=600, cwd=tmp)
         if not os.path.exists(report):
             raise RuntimeError(f"pipeline run {algorithm}/{module}/seed {seed} produced no report "
                                f"(rc={r.returncode}): {r.stderr[-1500:]}")
         with open(report) as f:
             rep = json.load(f)
-        rep.update(algorithm=algorithm, module=module, seed=seed)
+        rep.update(algorithm=algorithm, module=module, seed=seed, extra=list(extra))
+        if rep.get("crash"):
+            raise RuntimeError(f"pipeline run {algorithm}/{module}/seed {seed} crashed: {rep['crash']}")
         return rep
 
     def extra_checks(self):
@@ -859,13 +965,17 @@ class C13(PropertyCheck):
         for i in range(n):
             alg, mod = combos[i % len(combos)]
             iters = {"DYNAMOSA": 12, "MOSA": 12, "MIO": 80}[alg]
-            jobs.append((i, alg, mod, self.seed * 1000 + i // len(combos) + 1, iters))
+            jobs.append((i, alg, mod, self.seed * 1000 + i // len(combos) + 1, iters, ()))
+        n_ls = int(os.environ.get("VERIF_LS_RUNS", self.ls_runs_quick if self.tier == "quick" else self.ls_runs_thorough))
+        for k in range(n_ls):
+            jobs.append((n + k, "DYNAMOSA", "cmpmod", self.seed * 1000 + k + 1, 6, tuple(self.LS_ARGS)))
         tmp = tempfile.mkdtemp(prefix="c13-")
         fs, stats = [], {"runs": 0, "iterations": 0, "events": 0, "replacements": 0, "reexecutions": 0,
-                         "mio_add_calls": 0, "archived_erroneous": 0, "covered_final": 0}
+                         "mio_add_calls": 0, "archived_erroneous": 0, "covered_final": 0,
+                         "local_search_calls": 0, "local_search_changed_tests": 0, "snapshot_checks": 0}
         try:
             os.makedirs(os.path.join(tmp, "proj"))
-            for name, src in (("tinymod", TINYMOD), ("tinycls", TINYCLS)):
+            for name, src in (("tinymod", TINYMOD), ("tinycls", TINYCLS), ("cmpmod", CMPMOD)):
                 with open(os.path.join(tmp, "proj", name + ".py"), "w") as f:
                     f.write(textwrap.dedent(src).lstrip())
             with open(os.path.join(tmp, "child.py"), "w") as f:
@@ -882,6 +992,11 @@ class C13(PropertyCheck):
                 stats["mio_add_calls"] += rep["mio_adds"]
                 stats["archived_erroneous"] += rep["err_archived"]
                 stats["covered_final"] += rep["covered_final"]
+                stats["local_search_calls"] += rep["ls_calls"]
+                stats["local_search_changed_tests"] += rep["ls_changed_tests"]
+                stats["snapshot_checks"] += rep["snapshot_checks"]
+                if rep["extra"]:
+                    self.count("run:DYNAMOSA+local-search-every-statement")
                 self.count(f"run:{rep['algorithm']}")
                 if rep["kind"] is None:
                     raise RuntimeError(f"run {rep['algorithm']}/{rep['module']} never reached the search observer "
@@ -895,7 +1010,7 @@ class C13(PropertyCheck):
                     cls = v["class"][4:] if v["class"].startswith("mio-") else v["class"]
                     fs.append(Failure({"archive": arch, "class": cls},
                                       f"real {rep['algorithm']} run on {rep['module']} (seed {rep['seed']}): {v['what']}",
-                                      case={"run": {k: rep[k] for k in ("algorithm", "module", "seed")}},
+                                      case={"run": {k: rep[k] for k in ("algorithm", "module", "seed", "extra")}},
                                       detail=rep["violations"][:5]))
         finally:
             shutil.rmtree(tmp, ignore_errors=True)
